@@ -434,13 +434,17 @@ class FlowNorm:
     expression when exactly one definition reaches the node and the names used
     by that definition have not been re-bound in between (SSA-lite)."""
 
-    def __init__(self, fn: FuncInfo, rename=None, depth: int = 4):
+    def __init__(self, fn: FuncInfo, rename=None, depth: int = 4, keep=()):
+        """`keep`: local names that are never replaced by their definition
+        (use it for names bound from mutable state, e.g. a heap top)."""
         self.fn = fn
+        self.keep = set(keep)
         self.cfg = fn.cfg()
         self.rd = _cfg.reaching_defs(self.cfg)
         self.rename = rename
         self.depth = depth
         self._envs: Dict[int, Env] = {}
+        self._facts: Dict[tuple, tuple] = {}
 
     def _def_value(self, def_node, name: str) -> Optional[ast.AST]:
         a = def_node.ast
@@ -470,7 +474,7 @@ class FlowNorm:
         here = self.rd.get(node.id, {})
         defs: Dict[str, ast.AST] = {}
         for name, ds in here.items():
-            if len(ds) != 1:
+            if len(ds) != 1 or name in self.keep:
                 continue
             (d,) = tuple(ds)
             if d == _cfg.PARAM_DEF:
@@ -513,4 +517,9 @@ class FlowNorm:
         """Canonical comparison holding on the edge (node, lab), or None."""
         if node.kind != "test" or not isinstance(lab, tuple):
             return None
-        return self.at(node).cmp(node.ast, lab[0] == "T")
+        key = (node.id, lab[0])
+        hit = self._facts.get(key)
+        if hit is None:
+            hit = self.at(node).cmp(node.ast, lab[0] == "T")
+            self._facts[key] = hit
+        return hit
